@@ -140,6 +140,10 @@ func (ex *Exec) verifyFunc(fn *ssa.Function, con *Contract) {
 	for _, cl := range con.clauses("requires") {
 		st.assume(ex.evalClause(env, cl, con))
 	}
+	for _, cl := range con.clauses("assume") {
+		st.assume(ex.evalClause(env, cl, con))
+		ex.noteAssumption("assumed, not checked at call sites: " + run.short + " " + cl.Label + ": " + cl.Src)
+	}
 	for _, ax := range ex.db.Axioms {
 		st.assume(ex.evalClause(&SpecEnv{st: st, vars: map[string]Val{}}, ax, &Contract{Key: "axiom"}))
 	}
